@@ -168,6 +168,17 @@ static void run(void) {
         }
         int nr = VF_T(40, 600);
         for (int i = 0; i < nr; i++) around_cell(vf_rand_cell(&r, res), &r);
+        /* face-assignment slivers along the icosahedron edges (quarter points and midpoints, 1e-6..1e-3 rad off the edge) */
+        {
+            H3Index es[4000];
+            int ne = vf_edge_offset_seeds(res, es, 4000);
+            for (int i = 0; i < ne; i += VF_T(3, 1))
+                if (VF_MINE(idx++)) {
+                    LatLng g;
+                    if (!cellToLatLng(es[i], &g)) case_point(g.lat, g.lng, res, "edge-sliver");
+                    if ((i % 19) == 0) around_cell(es[i], &r);
+                }
+        }
         /* icosahedron vertices and edges themselves */
         for (int v = 0; v < 12; v++)
             if (VF_MINE(idx++)) {
